@@ -5,7 +5,10 @@ package psatoken
 
 import (
 	"crypto"
+	"crypto/ecdsa"
+	"crypto/ed25519"
 	"crypto/rand"
+	"crypto/rsa"
 	_ "crypto/sha256" // used hash algorithms need to be imported explicitly
 	"errors"
 	"fmt"
@@ -150,6 +153,11 @@ func (e *Evidence) Verify(pk crypto.PublicKey) error {
 		return fmt.Errorf("unable to get verification algorithm: %w", err)
 	}
 
+	// the crypto libraries panic on keys that are not well formed
+	if err = checkPublicKey(pk); err != nil {
+		return fmt.Errorf("unable to instantiate verifier: %w", err)
+	}
+
 	verifier, err := cose.NewVerifier(algo, pk)
 	if err != nil {
 		return fmt.Errorf("unable to instantiate verifier: %w", err)
@@ -158,6 +166,28 @@ func (e *Evidence) Verify(pk crypto.PublicKey) error {
 	err = e.message.Verify([]byte(""), verifier)
 	if err != nil {
 		return fmt.Errorf("signature verification failed: %w", err)
+	}
+
+	return nil
+}
+
+// checkPublicKey refuses the malformed keys that would make the crypto
+// libraries panic rather than fail: typed nil pointers, missing curve, point
+// or modulus, wrong Ed25519 key length.
+func checkPublicKey(pk crypto.PublicKey) error {
+	switch k := pk.(type) {
+	case *ecdsa.PublicKey:
+		if k == nil || k.Curve == nil || k.X == nil || k.Y == nil {
+			return errors.New("malformed ECDSA public key")
+		}
+	case *rsa.PublicKey:
+		if k == nil || k.N == nil {
+			return errors.New("malformed RSA public key")
+		}
+	case ed25519.PublicKey:
+		if len(k) != ed25519.PublicKeySize {
+			return errors.New("malformed Ed25519 public key")
+		}
 	}
 
 	return nil
